@@ -20,6 +20,8 @@ func init() {
 			"NOT decided: ordering / exactly-once delivery through the pty, TCP and crypto/ssh, that a blocked read returns when the descriptor is closed, end-to-end equivalence with an ideal pipe — operating-system and library behaviour that no static argument here bounds.",
 		Assumptions: []string{"os.File, net.Conn, crypto/ssh session pipes deliver bytes in order", "io.Reader contract: Read reports the number of bytes placed at the start of the buffer"},
 		Mutants: []Mutant{
+			{ID: "C16-wrong-deadline-cleared", Desc: "telnet negotiation clears the write deadline instead of the read deadline it armed", Rule: "C16/deadline-cleared",
+				Edits: []Edit{{File: "transport/telnet.go", Old: "cancelDeadlineErr := t.c.SetReadDeadline(time.Time{})", New: "cancelDeadlineErr := t.c.SetWriteDeadline(time.Time{})"}}},
 			{ID: "C16-stderr-pipe-undrained", Desc: "standard transport takes the session's stderr pipe and never reads it", Rule: "C16/pipes-drained",
 				Edits: []Edit{{File: "transport/standard.go", Old: "\treader       io.Reader\n\tExtraCiphers []string", New: "\treader       io.Reader\n\terrReader    io.Reader\n\tExtraCiphers []string"},
 					{File: "transport/standard.go", Old: "\tt.reader, err = t.session.StdoutPipe()", New: "\tt.errReader, err = t.session.StderrPipe()\n\tif err != nil {\n\t\treturn err\n\t}\n\n\tt.reader, err = t.session.StdoutPipe()"}}},
@@ -53,6 +55,8 @@ func init() {
 
 func runC16(c *Ctx, r *Report) {
 	importFoundation(c, r, "C16", "telnet-negotiation")
+	r.Rule("C16/deadline-cleared", "a read / write deadline a transport arms for a bounded phase is disarmed (same side, or both) on every path that reports success", 1)
+	checkDeadlineCleared(c, r, "C16/deadline-cleared")
 	r.Rule("C16/fd-owner", "an *os.File of the transport package is closed only by a Close method", 1)
 	checkFileClosedOnlyByClose(c, r, "C16/fd-owner")
 	r.Rule("C16/pipes-drained", "every crypto/ssh session pipe the standard transport takes is read / written by it", 2)
